@@ -95,6 +95,8 @@ def parseFaults (s : String) : Option Faults :=
         | "write" => some { f with writeF := some n }
         | "remove" => some { f with removeF := some n }
         | "gz" => some { f with gzF := some n }
+        | "gzcopy" => some { f with gzCopyF := some n }
+        | "gzfinish" => some { f with gzFinishF := some n }
         | _ => none
     | _, _ => none) (some {})
 
